@@ -1728,7 +1728,7 @@ class AbstractMatcher(utils.ContextWeakrefMixin):
       return subst
     self._protocol_cache.add(key)
     new_substs = []
-    for attribute in other_type.protocol_attributes:
+    for attribute in sorted(other_type.protocol_attributes):
       new_subst = self._match_protocol_attribute(
           left, other_type, attribute, subst, view
       )
